@@ -183,7 +183,9 @@ def project(x, H):
     raise TypeError(type(x))
 
 
-ATTR_NAMES = ["id", "class", "data-x", "aria-label", "x:y", "a.b", "A", "href", "title", "a1"]
+ATTR_NAMES = ["id", "class", "data-x", "aria-label", "x:y", "a.b", "A", "href", "title", "a1",
+              # valid names beyond word characters (template / framework syntaxes)
+              "@click", "[hidden]", "(input)", "#ref", "*ngIf", "keyup", "@keyup", "v-on:x.y", "é"]
 
 
 class C01(Prop):
